@@ -55,8 +55,17 @@ def check_tangent(run, items, x, K, label, conservative=None, ndir=3, rng=None, 
         run.fail(mon, "item=%s clause=shape" % label, "%s: matrix shape %s for %d unknowns" % (label, Kd.shape, n))
         return
     if not np.all(np.isfinite(Kd)):
-        run.skip(mon, "non-finite matrix (state outside the admissible range)")
-        run.note("non-finite matrix: " + label)
+        admissible = None
+        try:
+            admissible = (not any(hasattr(it, "umat") for it in items)) or min_detF(x) >= 0.2
+        except Exception:
+            pass
+        if admissible and maxabs(np.concatenate([f.values.ravel() for f in x.fields])) < 1e6:
+            # the workload keeps det F well above zero: a NaN / inf entry is no derivative of anything
+            run.fail(mon, "item=%s clause=finite" % label, "%s: the assembled matrix has non-finite entries at an admissible state" % label)
+        else:
+            run.skip(mon, "non-finite matrix (state outside the admissible range)")
+            run.note("non-finite matrix: " + label)
         return
     settle = needs_settle(items)
     if settle and not is_settled(items):
@@ -79,7 +88,17 @@ def check_tangent(run, items, x, K, label, conservative=None, ndir=3, rng=None, 
             d[offs[k]: offs[k + 1]] = rng.standard_normal(sizes[k])
             dirs.append(d)
     x0 = np.concatenate([f.values.ravel() for f in x.fields]).copy()
-    scale_x = max(1.0, maxabs(x0))
+    # step sizes relative to the natural size of each unknown: displacements in units of the cell size (the checks run on
+    # meshes scaled from millimetres to hundreds), the other fields of a mixed container in units of one
+    svec = np.ones(n)
+    try:
+        msh = x.fields[0].region.mesh
+        ext = msh.points[msh.cells].max(1) - msh.points[msh.cells].min(1)
+        svec[offs[0]: offs[1]] = float(np.median(ext[ext > 0])) if np.any(ext > 0) else 1.0
+    except Exception:
+        pass
+    svec[offs[0]: offs[1]] = np.maximum(svec[offs[0]: offs[1]], 1e-6 * maxabs(x0[offs[0]: offs[1]]))
+    scale_x = 1.0
 
     def f_at(s, d, xx=x):
         if inplace:
@@ -93,10 +112,11 @@ def check_tangent(run, items, x, K, label, conservative=None, ndir=3, rng=None, 
         return _fun(it2, x2, settle)
 
     worst, worst_rate = 0.0, None
-    kmax = max(maxabs(Kd), 1e-300)
     f0 = None
+    judged = 0
     for d in dirs:
-        d = d / maxabs(d)
+        d = d / maxabs(d) * svec
+        kmax = max(maxabs(np.abs(Kd) @ np.abs(d)), 1e-300)  # natural size of the product K d (row-wise)
         errs = []
         kink = False
         for h in (H1 * scale_x, H2 * scale_x):
@@ -118,16 +138,19 @@ def check_tangent(run, items, x, K, label, conservative=None, ndir=3, rng=None, 
         if e2 > FD_TOL and e2 < 0.35 * e1:
             run.skip(mon, "finite-difference error still shrinking like h^2 (non-polynomial state): inconclusive")
             continue
+        judged += 1
         if e2 > worst:
             worst, worst_rate = e2, (e1, e2)
     if inplace:
         _fun(items, x, settle)  # restore the trial state of the observed objects
+    if judged == 0:
+        return  # every direction was skipped: nothing was compared (the required units decide about inconclusive)
     run.compare(mon, "item=%s clause=matrix-is-derivative-of-vector" % label, worst, FD_TOL,
                 "%s: assembled matrix differs from the differentiated assembled vector" % label,
                 unit=unit_prefix + ":" + label, config=label, detail={"errors_h_h2": worst_rate, "unknowns": n},
                 sample={"items": label, "unknowns": n, "fd_error_rel": worst, "directions": len(dirs)})
     if conservative:
-        asym = maxabs(Kd - Kd.T) / kmax
+        asym = maxabs(Kd - Kd.T) / max(maxabs(Kd), 1e-300)
         run.compare(mon, "item=%s clause=symmetry" % label, asym, 1e-10, "%s: matrix of a conservative item is not symmetric" % label,
                     unit=unit_prefix + "-symmetry:" + label, config=label + " symmetry")
 
